@@ -20,7 +20,7 @@ def _r(rng, lo, hi, nd=3):
     return float(np.round(rng.uniform(lo, hi), nd))
 
 
-def family_L(rng, n=None, max_lag=3, max_lead=2, measurement=None, unit_root=False, coupling=0.2, forward_share=0.4, const=True):
+def family_L(rng, n=None, max_lag=3, max_lead=2, measurement=None, unit_root=False, coupling=0.2, forward_share=0.4, const=True, persistent=False):
     n = int(rng.integers(1, 6)) if n is None else n
     names = [f"x{i}" for i in range(n)]
     shocks = [f"e{i}" for i in range(n)]
@@ -51,6 +51,11 @@ def family_L(rng, n=None, max_lag=3, max_lead=2, measurement=None, unit_root=Fal
             typ = "ar"
             rho = _r(rng, -0.6, 0.9)
             k = int(rng.integers(1, max_lag + 1))
+            if persistent and not any(t == "ar-persistent" for t in meta["types"]):
+                # a highly persistent but stationary root (|lambda| in 0.99 .. 0.998)
+                rho = float(rng.choice([0.99, 0.995, 0.997, 0.998]))
+                k = 1
+                typ = "ar-persistent"
             spec["params"].append({"name": f"rho{i}", "desc": "", "value": rho})
             terms.append(E.bin_("*", E.par(f"rho{i}"), E.var(nm, -k)))
         meta["types"].append(typ)
@@ -58,6 +63,8 @@ def family_L(rng, n=None, max_lag=3, max_lead=2, measurement=None, unit_root=Fal
             j = int(rng.integers(0, n))
             if j == i or (j == rw_index and typ != "rw" and rng.random() < 0.5):
                 continue
+            if typ == "ar-persistent":
+                continue  # keep the persistent root where it was put
             s = int(rng.integers(-max_lag, max_lead + 1))
             cval = _r(rng, -coupling, coupling, 2)
             if cval == 0:
